@@ -24,7 +24,7 @@ BACKENDS = {
                              "--tlimit=%d" % int(t * 1000)],
 }
 ORDER = {
-    "int": ["z3-5.1", "z3-4.8.12", "cvc5-1.0.3"],
+    "int": ["z3-4.8.12", "z3-5.1", "cvc5-1.0.3"],
     "str": ["z3-4.8.12", "cvc5-1.0.3", "z3-5.1"],
 }
 
@@ -183,6 +183,23 @@ def run_backend(name, smt2, budget, model_vars=()):
     return "unknown", dt, {}, (out + r.stderr)[:400]
 
 
+# z3 5.1 returned `unsat` for a satisfiable sequence VC twice during construction (once shown wrong by
+# an explicit model).  Its `unsat` on a VC that mentions sequences is therefore only accepted together
+# with a second back end; alone it still serves as refuter (`sat` + model) and for pure arithmetic.
+def need_for(unsat_by):
+    return 1
+
+
+def _need_for_factory(smt2):
+    seqy = "(Seq " in smt2 or "seq." in smt2 or "String" in smt2 or "str." in smt2
+
+    def need(unsat_by):
+        if seqy and unsat_by and all(b == "z3-5.1" for b in unsat_by):
+            return len(unsat_by) + 1
+        return 1
+    return need
+
+
 def solve_one(ob, budget, confirm=None):
     """ob: dict with name, smt2, theory ('int'|'str'), model_vars.  Fills status/backend/seconds/model.
 
@@ -192,6 +209,7 @@ def solve_one(ob, budget, confirm=None):
     A `sat` after an `unsat` (or vice versa) is a conflict: no verdict (checker fault)."""
     order = ORDER.get(ob.get("theory", "int"), ORDER["int"])
     quantified = ("(forall " in ob["smt2"]) or ("(exists " in ob["smt2"])
+    need_for = _need_for_factory(ob["smt2"])
     need = 2 if quantified else 1
     want = max(need, confirm or 1)
     notes = []
@@ -218,11 +236,11 @@ def solve_one(ob, budget, confirm=None):
             return ob
         if st == "unsat":
             unsat_by.append(b)
-            if len(unsat_by) >= want:
+            if len(unsat_by) >= max(want, need_for(unsat_by)):
                 break
             continue
         notes.append("%s:%s:%s" % (b, st, note.replace("\n", " ")[:120]))
-    if len(unsat_by) >= need:
+    if len(unsat_by) >= max(need, need_for(unsat_by)):
         ob.update(status="unsat", backend="+".join(unsat_by), seconds=round(total, 3), model={},
                   confirmed=len(unsat_by) >= 2)
         return ob
